@@ -5,6 +5,7 @@ CONSTANTS N = 5
  FullY = FALSE
  Pep709 = TRUE
  Skeleton = TRUE
+ ChainOnly = FALSE
  AnyOrder = FALSE
  AllOptions = FALSE
 INVARIANT EmitProgram
